@@ -54,8 +54,13 @@ def run(ctx):
         rho = O.dense_state(act, n) if n <= 4 and rng.random() < 0.3 else None
         ent = {}
         for reg in regions:
-            how = rng.choice(['list', 'tuple', 'mask', 'array'])
-            if how == 'list':
+            how = rng.choice(['list', 'tuple', 'mask', 'array', 'list-shuffled', 'list-negative'])
+            idxs = list(reg)
+            if how == 'list-shuffled':        # the order in which the qubits of a region are listed is immaterial
+                rng.shuffle(idxs); arg = list(idxs)
+            elif how == 'list-negative':      # qubits may be counted from the end
+                idxs = [q - n if rng.random() < 0.6 else q for q in idxs]; rng.shuffle(idxs); arg = list(idxs)
+            elif how == 'list':
                 arg = list(reg)
             elif how == 'tuple':
                 arg = tuple(reg)
@@ -74,7 +79,7 @@ def run(ctx):
             if how == 'mask':
                 ctx.q('entropymask', 'entropymask %d %s %s' % (r, H.erows_ops(rows), E.ebits([i in reg for i in range(n)])), e, int)
             else:
-                ctx.q('entropyidx', 'entropyidx %d %s %s' % (r, H.erows_ops(rows), E.eints(reg)), e, lambda s: int(s.split(' ')[1]) if s.startswith('ok ') else s)
+                ctx.q('entropyidx', 'entropyidx %d %s %s' % (r, H.erows_ops(rows), E.eints(idxs if how.startswith('list-') else reg)), e, lambda s: int(s.split(' ')[1]) if s.startswith('ok ') else s)
             want = spec_entropy(act, n, reg)
             ctx.case((tuple(rows), r, reg), 0 < len(reg) < n and want > 0, sample=dict(op='entropy', N=n, r=r, region=reg, how=how, value=e))
             ctx.count('how=' + how); ctx.count('r=%d' % r)
